@@ -1,1 +1,544 @@
-/-! C28 — property theorems (stub: nothing proved yet). -/
+import B6.Lemmas.ProtoEachItem
+import B6.Lemmas.ProtoFeed
+import B6.Lemmas.ProtoPbf
+/-!
+# C28 — a callback error stops streaming and is reported
+
+Per protocol `P` (models in `B6/Model/Proto/*.lean`, one interleaving transition system each, for ANY number of
+goroutines, any item list and any set of failing callbacks; no bound on the schedule):
+
+* `P_error_reported` — in every reachable terminal state, if some callback returned an error the function
+  returns an error;
+* `P_no_deadlock`    — every reachable non-terminal state has an enabled step;
+* `P_worker_stops` / `P_prompt` — a goroutine whose callback failed runs no further callback; once the
+  feeder has seen the cancellation at most `capacity` further items are started.
+
+The three protocols that were defective in the unchanged tree (`EachItem`, `MemoryFeatureSource.Read`,
+`ReadPBFWithOptions`) are modelled AFTER the fixes in `/verif/fixes/C28-*.patch`; the models of the code before
+the fixes are kept as `…Old` with `…_counterexample` theorems (explicit schedules, checked by `decide`).
+-/
+namespace B6.Props.C28
+open B6.Model.Proto
+
+/-! ## `encoding.Uint64Map.EachItem` (repaired) -/
+section EachItem
+open B6.Model.Proto.EachItem
+
+/-- If a callback returned an error, `EachItem` returns an error (for every goroutine count, bucket layout,
+failing set and schedule). -/
+theorem eachitem_error_reported (c : Cfg) (s : St) (h : Reachable (step c) (init c) s)
+    (r : Bool) (hr : s.ret = some r) (hf : s.failed = true) : r = true := by
+  have I := inv_reachable h
+  obtain ⟨e, hall⟩ := I.ret r hr
+  rcases I.err hf with hc | ⟨i, hi⟩
+  · rw [e, hc]
+  · have := hall _ (List.mem_of_getElem? hi); cases this
+
+/-- … and it only returns an error that a callback produced. -/
+theorem eachitem_error_genuine (c : Cfg) (s : St) (h : Reachable (step c) (init c) s)
+    (hr : s.ret = some true) : s.failed = true := by
+  have key : ∀ s, Reachable (step c) (init c) s →
+      (s.cause = true → s.failed = true) ∧ (∀ i : Nat, s.ws[i]? = some W.failing → s.failed = true) ∧
+      (∀ r, s.ret = some r → r = s.cause) := by
+    intro s h
+    refine Reachable.invariant (fun s : St => (s.cause = true → s.failed = true) ∧
+      (∀ i : Nat, s.ws[i]? = some W.failing → s.failed = true) ∧ (∀ r, s.ret = some r → r = s.cause)) ?_ ?_ s h
+    · refine ⟨by simp [init], ?_, by simp [init]⟩
+      intro i hi; simp only [init, List.getElem?_replicate] at hi; split at hi <;> simp at hi
+    · rintro s s' ⟨h1, h2, h3⟩ hm
+      obtain ⟨hr, hm⟩ := mem_step.mp hm
+      have hret : ∀ r, s.ret = some r → r = s.cause := h3
+      rcases hm with ⟨i, hl, hw, rfl⟩ | ⟨hl, ht, rfl⟩ | ⟨hc, hl, rfl⟩ | ⟨hc, ha, rfl⟩ | ⟨i, w, hw, hm⟩
+      · refine ⟨h1, ?_, h3⟩
+        intro j hj; simp only [hand] at hj
+        rcases getElem?_set_some hj with ⟨_, e⟩ | ⟨_, e⟩
+        · split at e <;> cases e
+        · exact h2 j e
+      · exact ⟨h1, h2, h3⟩
+      · exact ⟨h1, h2, h3⟩
+      · exact ⟨h1, h2, by intro r e; simpa using e.symm⟩
+      · cases w with
+        | idle =>
+          simp only [workerStep, mem_guard] at hm; obtain ⟨_, rfl⟩ := hm
+          refine ⟨h1, ?_, h3⟩
+          intro j hj
+          rcases getElem?_set_some hj with ⟨_, e⟩ | ⟨_, e⟩
+          · cases e
+          · exact h2 j e
+        | busy k j =>
+          simp only [workerStep] at hm
+          split at hm
+          · simp only [List.mem_singleton] at hm; subst hm
+            exact ⟨fun _ => rfl, fun _ _ => rfl, h3⟩
+          · split at hm <;> (simp only [List.mem_singleton] at hm; subst hm)
+            · refine ⟨h1, ?_, h3⟩
+              intro j' hj
+              rcases getElem?_set_some hj with ⟨_, e⟩ | ⟨_, e⟩
+              · cases e
+              · exact h2 j' e
+            · refine ⟨h1, ?_, h3⟩
+              intro j' hj
+              rcases getElem?_set_some hj with ⟨_, e⟩ | ⟨_, e⟩
+              · cases e
+              · exact h2 j' e
+        | failing =>
+          simp only [workerStep, List.mem_singleton] at hm; subst hm
+          refine ⟨fun _ => h2 i hw, ?_, ?_⟩
+          · intro j' hj
+            rcases getElem?_set_some hj with ⟨_, e⟩ | ⟨_, e⟩
+            · cases e
+            · exact h2 j' e
+          · intro r e; rw [hr] at e; cases e
+        | exited => simp [workerStep] at hm
+  obtain ⟨h1, _, h3⟩ := key s h
+  exact h1 (h3 true hr).symm
+
+/-- No reachable state is deadlocked: while `EachItem` has not returned, some goroutine can take a step. -/
+theorem eachitem_no_deadlock (c : Cfg) (hg : 0 < c.g) (s : St) (h : Reachable (step c) (init c) s)
+    (ht : terminal s = false) : step c s ≠ [] := by
+  have I := inv_reachable h
+  have hr : s.ret = none := by
+    simp only [terminal] at ht; cases e : s.ret <;> simp_all
+  suffices ∃ s', s' ∈ step c s by
+    obtain ⟨s', hs'⟩ := this; intro e; rw [e] at hs'; cases hs'
+  by_cases hall : allExited s
+  · by_cases hc : s.closed = true
+    · exact ⟨_, mem_step.mpr ⟨hr, Or.inr (Or.inr (Or.inr (Or.inl ⟨hc, hall, rfl⟩)))⟩⟩
+    · have hc : s.closed = false := by simpa using hc
+      by_cases hl : inLoop c s
+      · -- every worker has left: the cancel channel holds a token
+        have h0 : 0 < s.ws.length := by rw [I.len]; exact hg
+        have : s.ws[0]? = some W.exited := by
+          rw [List.getElem?_eq_getElem h0]; congr 1; exact hall _ (List.getElem_mem h0)
+        have ht := I.tok hc hl.2.1 ⟨0, this⟩
+        exact ⟨_, mem_step.mpr ⟨hr, Or.inr (Or.inl ⟨hl, ht, rfl⟩)⟩⟩
+      · exact ⟨_, mem_step.mpr ⟨hr, Or.inr (Or.inr (Or.inl ⟨hc, hl, rfl⟩))⟩⟩
+  · -- some worker has not left
+    have : ∃ w ∈ s.ws, w ≠ W.exited := by
+      simp only [allExited] at hall
+      exact Classical.not_forall.mp hall |>.imp fun w hw => Classical.not_imp.mp hw
+    obtain ⟨w, hw, hne⟩ := this
+    obtain ⟨i, hi⟩ := List.mem_iff_getElem?.mp hw
+    have wstep : ∀ s', s' ∈ workerStep c s i w → s' ∈ step c s := fun s' hs' =>
+      mem_step.mpr ⟨hr, Or.inr (Or.inr (Or.inr (Or.inr ⟨i, w, hi, hs'⟩)))⟩
+    cases w with
+    | idle =>
+      by_cases hc : s.closed = true
+      · exact ⟨_, wstep _ (by simp [workerStep, hc]; rfl)⟩
+      · have hc : s.closed = false := by simpa using hc
+        by_cases hl : inLoop c s
+        · exact ⟨_, mem_step.mpr ⟨hr, Or.inl ⟨i, hl, hi, rfl⟩⟩⟩
+        · exact ⟨_, mem_step.mpr ⟨hr, Or.inr (Or.inr (Or.inl ⟨hc, hl, rfl⟩))⟩⟩
+    | busy k j =>
+      by_cases hf : c.fails k j = true
+      · exact ⟨_, wstep _ (by simp [workerStep, hf]; rfl)⟩
+      · by_cases hj : j + 1 < c.size k
+        · exact ⟨_, wstep _ (by simp [workerStep, hf, hj]; rfl)⟩
+        · exact ⟨_, wstep _ (by simp [workerStep, hf, hj]; rfl)⟩
+    | failing => exact ⟨_, wstep _ (by simp [workerStep]; rfl)⟩
+    | exited => exact (hne rfl).elim
+
+/-- A goroutine whose callback failed (or that has left) never runs a callback again — in any state. -/
+theorem eachitem_worker_stops (c : Cfg) (s s' : St) (h : s' ∈ step c s) (i : Nat)
+    (hi : s.ws[i]? = some W.failing ∨ s.ws[i]? = some W.exited) :
+    s'.ws[i]? = some W.failing ∨ s'.ws[i]? = some W.exited := by
+  obtain ⟨_, h⟩ := mem_step.mp h
+  have other : ∀ (j : Nat) (x : W), j ≠ i →
+      (s.ws.set j x)[i]? = some W.failing ∨ (s.ws.set j x)[i]? = some W.exited := by
+    intro j x hj; rw [List.getElem?_set_ne hj]; exact hi
+  rcases h with ⟨j, hl, hw, rfl⟩ | ⟨hl, ht, rfl⟩ | ⟨hc, hl, rfl⟩ | ⟨hc, ha, rfl⟩ | ⟨j, w, hw, h⟩
+  · exact other j _ (by rintro rfl; rcases hi with e | e <;> (rw [hw] at e; cases e))
+  · exact hi
+  · exact hi
+  · exact hi
+  · by_cases hj : j = i
+    · subst hj
+      rcases hi with e | e <;> (rw [hw] at e; cases e)
+      · simp only [workerStep, List.mem_singleton] at h; subst h
+        exact Or.inr (getElem?_set_self' hw)
+      · simp [workerStep] at h
+    · cases w with
+      | idle => simp only [workerStep, mem_guard] at h; obtain ⟨_, rfl⟩ := h; exact other j _ hj
+      | busy k j' =>
+        simp only [workerStep] at h
+        split at h
+        · simp only [List.mem_singleton] at h; subst h; exact other j _ hj
+        · split at h <;> (simp only [List.mem_singleton] at h; subst h; exact other j _ hj)
+      | failing => simp only [workerStep, List.mem_singleton] at h; subst h; exact other j _ hj
+      | exited => simp [workerStep] at h
+
+/-- Promptness: once the feeder has taken the cancel token (`break feed`), no bucket is handed out any more —
+every bucket a worker is busy with afterwards it was already busy with (the channel is unbuffered). -/
+theorem eachitem_prompt (c : Cfg) (s s' : St) (h : s' ∈ step c s) (hs : s.stopped = true) :
+    s'.stopped = true ∧ s'.next = s.next ∧
+    ∀ (i k j : Nat), s'.ws[i]? = some (W.busy k j) → ∃ j', s.ws[i]? = some (W.busy k j') := by
+  obtain ⟨_, h⟩ := mem_step.mp h
+  have keep : ∀ (j : Nat) (x : W), (∀ k j', x = W.busy k j' → ∃ j'', s.ws[j]? = some (W.busy k j'')) →
+      ∀ (i k j' : Nat), (s.ws.set j x)[i]? = some (W.busy k j') → ∃ j'', s.ws[i]? = some (W.busy k j'') := by
+    intro j x hx i k j' hi
+    rcases getElem?_set_some hi with ⟨rfl, e⟩ | ⟨_, e⟩
+    · exact hx k j' e.symm
+    · exact ⟨j', e⟩
+  rcases h with ⟨j, hl, hw, rfl⟩ | ⟨hl, ht, rfl⟩ | ⟨hc, hl, rfl⟩ | ⟨hc, ha, rfl⟩ | ⟨j, w, hw, h⟩
+  · exact absurd hl.2.1 (by simp [hs])
+  · exact absurd hl.2.1 (by simp [hs])
+  · exact ⟨hs, rfl, fun i k j h => ⟨j, h⟩⟩
+  · exact ⟨hs, rfl, fun i k j h => ⟨j, h⟩⟩
+  · cases w with
+    | idle =>
+      simp only [workerStep, mem_guard] at h; obtain ⟨_, rfl⟩ := h
+      exact ⟨hs, rfl, keep j _ (by intro k j' e; cases e)⟩
+    | busy k j' =>
+      simp only [workerStep] at h
+      split at h
+      · simp only [List.mem_singleton] at h; subst h
+        exact ⟨hs, rfl, keep j _ (by intro k j' e; cases e)⟩
+      · split at h <;> (simp only [List.mem_singleton] at h; subst h)
+        · exact ⟨hs, rfl, keep j _ (by intro k2 j2 e; cases e; exact ⟨j', hw⟩)⟩
+        · exact ⟨hs, rfl, keep j _ (by intro k j' e; cases e)⟩
+    | failing =>
+      simp only [workerStep, List.mem_singleton] at h; subst h
+      exact ⟨hs, rfl, keep j _ (by intro k j' e; cases e)⟩
+    | exited => simp [workerStep] at h
+
+/-- non-vacuity: 1 goroutine, 3 buckets of one id, the first callback fails — the schedule that deadlocked the
+old code now ends with the error returned. -/
+def exCfg : Cfg := { g := 1, n := 3, size := fun _ => 1, fails := fun k _ => k == 0 }
+example : ∃ s, Reachable (step exCfg) (init exCfg) s ∧ s.ret = some true ∧ s.failed = true :=
+  ⟨_, Reachable.of_runSched [0, 0, 0, 0, 0, 0] _ _ .refl rfl, by decide⟩
+example : terminal (init exCfg) = false ∧ 0 < exCfg.g := by decide
+
+end EachItem
+
+/-! ## `MemoryFeatureSource.Read` (repaired; `watch = true`), `eachIngestFeature` and
+`ModifiedTags.EachModifiedTag` (`watch = false`) — theorems for either value of `watch` -/
+section Feed
+open B6.Model.Proto.Feed
+
+theorem feed_error_reported (c : Cfg) (s : St) (h : Reachable (step c) (init c) s)
+    (r : Bool) (hr : s.ret = some r) (hf : s.failed = true) : r = true := by
+  have I := inv_reachable h
+  obtain ⟨e, hall⟩ := I.ret r hr
+  rcases I.err hf with hc | ⟨i, hi⟩
+  · rw [e, hc]
+  · have := hall _ (List.mem_of_getElem? hi); cases this
+
+theorem feed_no_deadlock (c : Cfg) (hg : 0 < c.g) (s : St) (h : Reachable (step c) (init c) s)
+    (ht : terminal s = false) : step c s ≠ [] := by
+  have I := inv_reachable h
+  have hr : s.ret = none := by
+    simp only [terminal] at ht; cases e : s.ret <;> simp_all
+  suffices ∃ s', s' ∈ step c s by
+    obtain ⟨s', hs'⟩ := this; intro e; rw [e] at hs'; cases hs'
+  by_cases hall : allExited s
+  · by_cases hc : s.closed = true
+    · exact ⟨_, mem_step.mpr ⟨hr, Or.inr (Or.inr (Or.inr (Or.inl ⟨hc, hall, rfl⟩)))⟩⟩
+    · have hc : s.closed = false := by simpa using hc
+      by_cases hl : inLoop c s
+      · -- every worker has left although the channel is open: the context is cancelled
+        have h0 : 0 < s.ws.length := by rw [I.len]; exact hg
+        have e0 : s.ws[0]? = some W.exited := by
+          rw [List.getElem?_eq_getElem h0]; congr 1; exact hall _ (List.getElem_mem h0)
+        have hcan : s.cancelled = true := by
+          cases hcc : s.cancelled with
+          | true => rfl
+          | false => exact absurd e0 (I.live hc hcc 0)
+        exact ⟨_, mem_step.mpr ⟨hr, Or.inr (Or.inl ⟨hl, hcan, rfl⟩)⟩⟩
+      · exact ⟨_, mem_step.mpr ⟨hr, Or.inr (Or.inr (Or.inl ⟨hc, hl, rfl⟩))⟩⟩
+  · have : ∃ w ∈ s.ws, w ≠ W.exited := by
+      simp only [allExited] at hall
+      exact Classical.not_forall.mp hall |>.imp fun w hw => Classical.not_imp.mp hw
+    obtain ⟨w, hw, hne⟩ := this
+    obtain ⟨i, hi⟩ := List.mem_iff_getElem?.mp hw
+    have wstep : ∀ s', s' ∈ workerStep c s i w → s' ∈ step c s := fun s' hs' =>
+      mem_step.mpr ⟨hr, Or.inr (Or.inr (Or.inr (Or.inr ⟨i, w, hi, hs'⟩)))⟩
+    cases w with
+    | idle =>
+      cases hq : s.queue with
+      | cons k q => exact ⟨_, wstep _ (by simp [workerStep, recv, hq]; right; rfl)⟩
+      | nil =>
+        by_cases hc : s.closed = true
+        · exact ⟨_, wstep _ (by simp [workerStep, recv, hq, hc]; right; rfl)⟩
+        · have hc : s.closed = false := by simpa using hc
+          by_cases hl : inLoop c s
+          · exact ⟨_, mem_step.mpr ⟨hr, Or.inl ⟨hl, by simp [hq, hg], rfl⟩⟩⟩
+          · exact ⟨_, mem_step.mpr ⟨hr, Or.inr (Or.inr (Or.inl ⟨hc, hl, rfl⟩))⟩⟩
+    | busy k =>
+      by_cases hf : c.fails k = true
+      · exact ⟨_, wstep _ (by simp [workerStep, hf]; rfl)⟩
+      · exact ⟨_, wstep _ (by simp [workerStep, hf]; rfl)⟩
+    | failing => exact ⟨_, wstep _ (by simp [workerStep]; rfl)⟩
+    | exited => exact (hne rfl).elim
+
+/-- A goroutine whose callback failed never runs a callback again. -/
+theorem feed_worker_stops (c : Cfg) (s s' : St) (h : s' ∈ step c s) (i : Nat)
+    (hi : s.ws[i]? = some W.failing ∨ s.ws[i]? = some W.exited) :
+    s'.ws[i]? = some W.failing ∨ s'.ws[i]? = some W.exited := by
+  obtain ⟨_, h⟩ := mem_step.mp h
+  rcases h with ⟨_, _, rfl⟩ | ⟨_, _, rfl⟩ | ⟨_, _, rfl⟩ | ⟨_, _, rfl⟩ | ⟨j, w, hw, h⟩
+  · exact hi
+  · exact hi
+  · exact hi
+  · exact hi
+  · have other : ∀ x : W, j ≠ i →
+        (s.ws.set j x)[i]? = some W.failing ∨ (s.ws.set j x)[i]? = some W.exited := by
+      intro x hj; rw [List.getElem?_set_ne hj]; exact hi
+    by_cases hj : j = i
+    · subst hj
+      rcases mem_workerStep h with ⟨rfl, _, _, rfl⟩ | ⟨rfl, k, q, hq, rfl⟩ | ⟨rfl, hq, hc, rfl⟩ |
+        ⟨k, rfl, hf, rfl⟩ | ⟨k, rfl, hf, rfl⟩ | ⟨rfl, rfl⟩
+      all_goals first
+        | exact Or.inr (getElem?_set_self' hw)
+        | (rcases hi with e | e <;> (rw [hw] at e; cases e))
+    · rcases mem_workerStep h with ⟨rfl, _, _, rfl⟩ | ⟨rfl, k, q, hq, rfl⟩ | ⟨rfl, hq, hc, rfl⟩ |
+        ⟨k, rfl, hf, rfl⟩ | ⟨k, rfl, hf, rfl⟩ | ⟨rfl, rfl⟩
+      all_goals exact other _ hj
+
+/-- Promptness: after the producer has seen the cancellation, at most `g` (the capacity of the channel)
+further items are received by the callback goroutines. -/
+theorem feed_prompt (c : Cfg) (s : St) (h : Reachable (step c) (init c) s) : s.late ≤ c.g := by
+  have := (inv_reachable h).cap; omega
+
+def exFeed (watch : Bool) : Cfg := { g := 1, n := 3, fails := fun k => k == 0, watch := watch }
+example : ∃ s, Reachable (step (exFeed true)) (init (exFeed true)) s ∧ s.ret = some true ∧ s.failed = true :=
+  ⟨_, Reachable.of_runSched [0, 0, 0, 0, 0, 0, 0, 0] _ _ .refl rfl, by decide⟩
+
+end Feed
+
+/-! ## `osm.ReadPBFWithOptions` (repaired) -/
+section Pbf
+open B6.Model.Proto.Pbf
+
+theorem pbf_error_reported (c : Cfg) (s : St) (h : Reachable (step c) (init c) s)
+    (r : Bool) (hr : s.ret = some r) (hf : s.failed = true) : r = true := by
+  have I := inv_reachable h
+  obtain ⟨e, hall⟩ := I.ret r hr
+  rcases I.err hf with hc | ⟨i, hi⟩
+  · rw [e, hc]
+  · have := hall _ (List.mem_of_getElem? hi); cases this
+
+private theorem exists_idle {ws : List W} (h1 : ∀ w ∈ ws, w = W.idle ∨ w = W.exited)
+    (h2 : ws.countP isExited < ws.length) : ∃ i : Nat, ws[i]? = some W.idle := by
+  have : ¬ ∀ w ∈ ws, isExited w = true := by
+    intro hall; have := List.countP_eq_length.mpr hall; omega
+  obtain ⟨w, hw⟩ := Classical.not_forall.mp this
+  obtain ⟨hm, hne⟩ := Classical.not_imp.mp hw
+  rcases h1 w hm with rfl | rfl
+  · exact List.mem_iff_getElem?.mp hm
+  · exact (hne rfl).elim
+
+theorem pbf_no_deadlock (c : Cfg) (hg : 0 < c.g) (s : St) (h : Reachable (step c) (init c) s)
+    (ht : terminal s = false) : step c s ≠ [] := by
+  have I := inv_reachable h
+  have hr : s.ret = none := by
+    simp only [terminal] at ht; cases e : s.ret <;> simp_all
+  suffices ∃ s', s' ∈ step c s by
+    obtain ⟨s', hs'⟩ := this; intro e; rw [e] at hs'; cases hs'
+  have wstep : ∀ (i : Nat) (w : W) (s' : St), s.ws[i]? = some w → s' ∈ workerStep c s i w → s' ∈ step c s := fun i w s' hi hs' =>
+    mem_step.mpr ⟨hr, Or.inr (Or.inr ⟨i, w, hi, hs'⟩)⟩
+  have rstep : ∀ s', s' ∈ readerStep c s → s' ∈ step c s := fun s' hs' => mem_step.mpr ⟨hr, Or.inl hs'⟩
+  -- a worker that is in the middle of a blob can always move
+  by_cases hbusy : ∃ (i : Nat) (w : W), s.ws[i]? = some w ∧ w ≠ W.idle ∧ w ≠ W.exited
+  · obtain ⟨i, w, hi, h1, h2⟩ := hbusy
+    cases w with
+    | idle => exact (h1 rfl).elim
+    | exited => exact (h2 rfl).elim
+    | failing => exact ⟨_, wstep i _ _ hi (by simp [workerStep]; rfl)⟩
+    | busy k j =>
+      by_cases hf : c.fails k j = true
+      · exact ⟨_, wstep i _ _ hi (by simp [workerStep, hf]; rfl)⟩
+      · by_cases hj : j + 1 < c.size k
+        · exact ⟨_, wstep i _ _ hi (by simp [workerStep, hf, hj]; rfl)⟩
+        · exact ⟨_, wstep i _ _ hi (by simp [workerStep, hf, hj]; rfl)⟩
+  have hie : ∀ w ∈ s.ws, w = W.idle ∨ w = W.exited := by
+    intro w hw
+    obtain ⟨i, hi⟩ := List.mem_iff_getElem?.mp hw
+    by_cases h1 : w = W.idle
+    · exact Or.inl h1
+    · by_cases h2 : w = W.exited
+      · exact Or.inr h2
+      · exact (hbusy ⟨i, w, hi, h1, h2⟩).elim
+  -- an idle worker can take whatever is at the head of the channel
+  have recvStep : ∀ i : Nat, s.ws[i]? = some W.idle → s.queue ≠ [] → ∃ s', s' ∈ step c s := by
+    intro i hi hq
+    cases hq' : s.queue with
+    | nil => exact (hq hq').elim
+    | cons m q =>
+      cases m with
+      | data k => exact ⟨_, wstep i _ _ hi (by simp [workerStep, recv, hq']; right; rfl)⟩
+      | done => exact ⟨_, wstep i _ _ hi (by simp [workerStep, recv, hq']; right; rfl)⟩
+  cases hcan : s.cancelled with
+  | true =>
+    by_cases hidle : ∃ i : Nat, s.ws[i]? = some W.idle
+    · obtain ⟨i, hi⟩ := hidle
+      exact ⟨_, wstep i _ _ hi (by simp [workerStep, hcan]; left; rfl)⟩
+    · have hall : allExited s := by
+        intro w hw
+        rcases hie w hw with rfl | rfl
+        · exact (hidle (List.mem_iff_getElem?.mp hw)).elim
+        · rfl
+      cases hrd : s.rd with
+      | reading =>
+        by_cases hn : s.next < c.n
+        · exact ⟨_, rstep _ (by simp [readerStep, hrd, hn, hcan]; right; rfl)⟩
+        · exact ⟨_, rstep _ (by simp [readerStep, hrd, hn]; rfl)⟩
+      | sending j =>
+        by_cases hj : j < c.g
+        · exact ⟨_, rstep _ (by simp [readerStep, hrd, hj, hcan]; right; rfl)⟩
+        · exact ⟨_, rstep _ (by simp [readerStep, hrd, hj]; rfl)⟩
+      | finished => exact ⟨_, mem_step.mpr ⟨hr, Or.inr (Or.inl ⟨hrd, hall, rfl⟩)⟩⟩
+  | false =>
+    have hcnt := I.cnt hcan
+    have hlen := I.len
+    cases hrd : s.rd with
+    | reading =>
+      by_cases hn : s.next < c.n
+      · by_cases hq : s.queue.length < c.g
+        · exact ⟨_, rstep _ (by simp [readerStep, hrd, hn, hq]; left; rfl)⟩
+        · -- the channel is full and nobody has left: a worker takes the head
+          rw [hrd] at hcnt; simp only [doneSent] at hcnt
+          obtain ⟨i, hi⟩ := exists_idle hie (by omega)
+          exact recvStep i hi (by intro e; rw [e] at hq; simp at hq; omega)
+      · exact ⟨_, rstep _ (by simp [readerStep, hrd, hn]; rfl)⟩
+    | sending j =>
+      by_cases hj : j < c.g
+      · by_cases hq : s.queue.length < c.g
+        · exact ⟨_, rstep _ (by simp [readerStep, hrd, hj, hq]; left; rfl)⟩
+        · rw [hrd] at hcnt; simp only [doneSent] at hcnt
+          obtain ⟨i, hi⟩ := exists_idle hie (by omega)
+          exact recvStep i hi (by intro e; rw [e] at hq; simp at hq; omega)
+      · exact ⟨_, rstep _ (by simp [readerStep, hrd, hj]; rfl)⟩
+    | finished =>
+      by_cases hall : allExited s
+      · exact ⟨_, mem_step.mpr ⟨hr, Or.inr (Or.inl ⟨hrd, hall, rfl⟩)⟩⟩
+      · -- a worker is still waiting, so its done-blob is still in the channel
+        rw [hrd] at hcnt; simp only [doneSent] at hcnt
+        have hlt : s.ws.countP isExited < s.ws.length := by
+          have hle := List.countP_le_length (p := isExited) (l := s.ws)
+          rcases Nat.lt_or_ge (s.ws.countP isExited) s.ws.length with h | h
+          · exact h
+          · exfalso; apply hall
+            have := List.countP_eq_length.mp (Nat.le_antisymm hle h)
+            intro w hw
+            have hx := this w hw
+            cases w with
+            | exited => rfl
+            | idle => cases hx
+            | busy k j => cases hx
+            | failing => cases hx
+        obtain ⟨i, hi⟩ := exists_idle hie hlt
+        exact recvStep i hi (by intro e; rw [e] at hcnt; simp at hcnt; omega)
+
+theorem pbf_worker_stops (c : Cfg) (s s' : St) (h : s' ∈ step c s) (i : Nat)
+    (hi : s.ws[i]? = some W.failing ∨ s.ws[i]? = some W.exited) :
+    s'.ws[i]? = some W.failing ∨ s'.ws[i]? = some W.exited := by
+  obtain ⟨_, h⟩ := mem_step.mp h
+  rcases h with h | ⟨_, _, rfl⟩ | ⟨j, w, hw, h⟩
+  · rcases mem_readerStep h with ⟨_, _, _, rfl⟩ | ⟨_, _, _, rfl⟩ | ⟨_, _, rfl⟩ |
+      ⟨_, _, _, _, rfl⟩ | ⟨_, _, _, _, rfl⟩ | ⟨_, _, _, rfl⟩ <;> exact hi
+  · exact hi
+  · have other : ∀ x : W, j ≠ i →
+        (s.ws.set j x)[i]? = some W.failing ∨ (s.ws.set j x)[i]? = some W.exited := by
+      intro x hj; rw [List.getElem?_set_ne hj]; exact hi
+    by_cases hj : j = i
+    · subst hj
+      rcases mem_workerStep h with ⟨rfl, _, rfl⟩ | ⟨rfl, k, q, hq, rfl⟩ | ⟨rfl, q, hq, rfl⟩ |
+        ⟨k, j', rfl, hf, rfl⟩ | ⟨k, j', x, rfl, hf, hx, rfl⟩ | ⟨rfl, rfl⟩
+      all_goals first
+        | exact Or.inr (getElem?_set_self' hw)
+        | (rcases hi with e | e <;> (rw [hw] at e; cases e))
+    · rcases mem_workerStep h with ⟨rfl, _, rfl⟩ | ⟨rfl, k, q, hq, rfl⟩ | ⟨rfl, q, hq, rfl⟩ |
+        ⟨k, j', rfl, hf, rfl⟩ | ⟨k, j', x, rfl, hf, hx, rfl⟩ | ⟨rfl, rfl⟩
+      all_goals exact other _ hj
+
+/-- Promptness: after `readBlobs` has seen the cancellation, at most `g` (the capacity of the channel) further
+data blobs are taken by the workers. -/
+theorem pbf_prompt (c : Cfg) (s : St) (h : Reachable (step c) (init c) s) : s.late ≤ c.g := by
+  have := (inv_reachable h).cap; omega
+
+def exPbf : Cfg := { g := 1, n := 3, size := fun k => if k == 0 then 0 else 1, fails := fun k _ => k == 1 }
+example : ∃ s, Reachable (step exPbf) (init exPbf) s ∧ s.ret = some true ∧ s.failed = true :=
+  ⟨_, Reachable.of_runSched [0, 0, 0, 0, 0, 0, 0, 0, 0, 0, 0] _ _ .refl rfl, by decide⟩
+
+end Pbf
+
+/-! ## What "promptly" cannot mean
+
+`select` picks among its ready arms at random, and the goroutine that failed may be descheduled before it
+cancels; under the demonic scheduler of the model the feeder can therefore go on handing out items for as long
+as it has any, so the strict bound "at most g + capacity callbacks start after the first failure" is NOT a
+theorem of the (repaired) protocols.  What is proved instead: the failing goroutine itself stops
+(`…_worker_stops`), and once the feeder has observed the cancellation at most `capacity` further items are
+started (`…_prompt`).  The real code's `select` is fair, so it stops after an expected O(1) further sends;
+the correspondence run records the measured numbers. -/
+section Strict
+open B6.Model.Proto.EachItem
+
+def eachitem_prompt_strict_statement (c : Cfg) : Prop :=
+  ∀ s, Reachable (step c) (init c) s → s.after ≤ c.g
+
+def exStrict : Cfg := { g := 2, n := 12, size := fun _ => 1, fails := fun k _ => k == 0 }
+
+theorem eachitem_prompt_strict_counterexample : ¬ eachitem_prompt_strict_statement exStrict := by
+  intro h
+  have hr : ∃ s, Reachable (step exStrict) (init exStrict) s ∧ s.after = 8 :=
+    ⟨_, Reachable.of_runSched [0, 0, 0, 0, 1, 0, 1, 0, 1, 0, 1, 0, 1, 0, 1, 0, 1, 0, 0, 0, 0] _ _ .refl rfl, by decide⟩
+  obtain ⟨s, hs, ha⟩ := hr
+  have := h s hs
+  rw [ha] at this
+  exact absurd this (by decide)
+
+end Strict
+
+/-! ## The code before the fixes (`…Old` models): the defects, as explicit schedules -/
+section Old
+
+/-- `EachItem`, 1 goroutine, 3 buckets, the callback fails on the first: the only worker leaves, the feeder eats
+the single cancel token for bucket 1 (its `break` only leaves the select) and blocks forever offering bucket 2.
+Observed on the real code as a hang (harness corpus). -/
+theorem eachitem_deadlock_counterexample :
+    ∃ s, Reachable (EachItemOld.step ⟨1, 3, fun _ => 1, fun k _ => k == 0, fun _ _ => true⟩)
+        (EachItemOld.init ⟨1, 3, fun _ => 1, fun k _ => k == 0, fun _ _ => true⟩) s ∧
+      deadlocked (EachItemOld.step ⟨1, 3, fun _ => 1, fun k _ => k == 0, fun _ _ => true⟩) EachItemOld.terminal s = true :=
+  ⟨_, Reachable.of_runSched [0, 0, 0, 0] _ _ .refl rfl, by decide⟩
+
+/-- `EachItem`, one bucket with two ids, the callback fails once on the first id: the trailing `f(...)` runs on
+that id again, succeeds, overwrites `err`, and `EachItem` returns nil although a callback failed. -/
+theorem eachitem_error_lost_counterexample :
+    ∃ s, Reachable (EachItemOld.step ⟨1, 1, fun _ => 2, fun _ j => j == 0, fun _ _ => false⟩)
+        (EachItemOld.init ⟨1, 1, fun _ => 2, fun _ j => j == 0, fun _ _ => false⟩) s ∧
+      s.ret = some false ∧ s.failed = true :=
+  ⟨_, Reachable.of_runSched [0, 0, 0, 0, 0, 0] _ _ .refl rfl, by decide⟩
+
+/-- `MemoryFeatureSource.Read`, 1 goroutine, 3 features, the callback fails on the first: the feeder leaves on
+`ctx.Done()`, the producer blocks on the full channel. Observed on the real code as a hang. -/
+theorem memread_deadlock_counterexample :
+    ∃ s, Reachable (FeedOld.step ⟨1, 3, fun k => k == 0⟩) (FeedOld.init ⟨1, 3, fun k => k == 0⟩) s ∧
+      deadlocked (FeedOld.step ⟨1, 3, fun k => k == 0⟩) FeedOld.terminal s = true :=
+  ⟨_, Reachable.of_runSched [0, 0, 0, 0, 0, 0] _ _ .refl rfl, by decide⟩
+
+/-- … and the goroutine whose callback failed went on to call it for the next feature. -/
+theorem memread_worker_continues_counterexample :
+    ∃ s, Reachable (FeedOld.step ⟨1, 3, fun k => k == 0⟩) (FeedOld.init ⟨1, 3, fun k => k == 0⟩) s ∧
+      s.cause = true ∧ s.ws = [FeedOld.W.busy 1] :=
+  ⟨_, Reachable.of_runSched [0, 0, 0, 0, 0, 1] _ _ .refl rfl, by decide⟩
+
+/-- `ReadPBFWithOptions`, 1 core, header + 2 data blobs, the callback fails in the first data blob: the worker
+leaves on `ctx.Done()` with the second blob still in the channel, the reader blocks sending its done-blob.
+Observed on the real code as a hang. -/
+theorem pbf_deadlock_counterexample :
+    ∃ s, Reachable (PbfOld.step ⟨1, 3, fun k => if k == 0 then 0 else 1, fun k _ => k == 1⟩)
+        (PbfOld.init ⟨1, 3, fun k => if k == 0 then 0 else 1, fun k _ => k == 1⟩) s ∧
+      deadlocked (PbfOld.step ⟨1, 3, fun k => if k == 0 then 0 else 1, fun k _ => k == 1⟩) PbfOld.terminal s = true :=
+  ⟨_, Reachable.of_runSched [0, 0, 0, 0, 0, 0, 0, 0, 0] _ _ .refl rfl, by decide⟩
+
+/-- … and the worker whose callback failed went on to read the next blob. -/
+theorem pbf_worker_continues_counterexample :
+    ∃ s, Reachable (PbfOld.step ⟨1, 3, fun k => if k == 0 then 0 else 1, fun k _ => k == 1⟩)
+        (PbfOld.init ⟨1, 3, fun k => if k == 0 then 0 else 1, fun k _ => k == 1⟩) s ∧
+      s.oerr = true ∧ s.ws = [PbfOld.W.busy 2 0] :=
+  ⟨_, Reachable.of_runSched [0, 0, 0, 0, 0, 0, 0, 0, 1] _ _ .refl rfl, by decide⟩
+
+end Old
+
+end B6.Props.C28
